@@ -613,7 +613,21 @@ class Rolling:
                 else:
                     P = snp.cast_scalar(v, _np.dtype("int64"))
         else:
-            raise Unsupported("integer rolling window")
+            # fixed window of `window` rows ending at each row; min_periods defaults to the window size
+            self.P = None
+            self.k = int(window)
+            if self.k < 0:
+                raise ValueError("window must be an integer 0 or greater")
+            if min_periods is None:
+                mp = SInt(self.k)
+            else:
+                mp = snp.cast_scalar(min_periods, _np.dtype("int64"))
+                if bool(mp < 0):
+                    raise ValueError("min_periods must be >= 0")
+                if bool(mp > self.k):
+                    raise ValueError(f"min_periods {int(mp)} must be <= window {self.k}")
+            self.mp = mp
+            return
         self.P = P
         if not isinstance(s.index, DatetimeIndex):
             raise ValueError("window must be an integer 0 or greater")
@@ -637,6 +651,9 @@ class Rolling:
 
     def _windows(self):
         """For each i: list of member positions j<=i (forks on time membership)."""
+        if self.P is None:
+            n = len(self.s)
+            return [list(range(max(0, i - self.k + 1), i + 1)) if self.k > 0 else [] for i in range(n)]
         ts = [t.s for t in self.s.index.arr.a]
         out = []
         for i in range(len(ts)):
